@@ -302,12 +302,22 @@ theorem yield_after_release_holds_a_slot : ∃ s, runActs false (init 1 1 [false
 /-- the executable statement is discriminating: it rejects an observation over capacity, a counter that disagrees with
     the owners (a slot leaked by a yield), a failure without cancellation, and slots held at quiescence -/
 example :
-    checkRun 1 1 [false, false] [.acq 0, .acq 1] [⟨⟨.ok, []⟩, 1, 0, 0, 0⟩, ⟨⟨.ok, []⟩, 2, 0, 0, 0⟩] = some "over-capacity" ∧
-    checkRun 2 1 [false] [.acq 0, .expire 0, .yield 0] [⟨⟨.ok, []⟩, 1, 0, 0, 0⟩, ⟨⟨.none, []⟩, 1, 0, 0, 0⟩, ⟨⟨.ok, []⟩, 1, 1, 0, 0⟩]
+    checkRun 1 1 [false, false] [.acq 0, .acq 1] [⟨⟨.ok, []⟩, 1, 0, 0, 0, []⟩, ⟨⟨.ok, []⟩, 2, 0, 0, 0, []⟩] = some "over-capacity" ∧
+    checkRun 2 1 [false] [.acq 0, .expire 0, .yield 0] [⟨⟨.ok, []⟩, 1, 0, 0, 0, []⟩, ⟨⟨.none, []⟩, 1, 0, 0, 0, []⟩, ⟨⟨.ok, []⟩, 1, 1, 0, 0, []⟩]
       = some "held-ne-owners" ∧
-    checkRun 1 1 [false] [.acq 0] [⟨⟨.err, []⟩, 0, 0, 0, 0⟩] = some "spurious-failure" ∧
-    checkRun 1 1 [false] [.acq 0, .rel 0] [⟨⟨.ok, []⟩, 1, 0, 0, 0⟩, ⟨⟨.none, []⟩, 1, 0, 0, 0⟩] = some "held-ne-owners" ∧
-    checkRun 1 1 [false] [.acq 0, .rel 0] [⟨⟨.ok, []⟩, 1, 0, 0, 0⟩, ⟨⟨.none, []⟩, 0, 0, 0, 0⟩] = none := by decide
+    checkRun 1 1 [false] [.acq 0] [⟨⟨.err, []⟩, 0, 0, 0, 0, []⟩] = some "spurious-failure" ∧
+    checkRun 1 1 [false] [.acq 0, .rel 0] [⟨⟨.ok, []⟩, 1, 0, 0, 0, []⟩, ⟨⟨.none, []⟩, 1, 0, 0, 0, []⟩] = some "held-ne-owners" ∧
+    checkRun 1 1 [false] [.acq 0, .rel 0] [⟨⟨.ok, []⟩, 1, 0, 0, 0, []⟩, ⟨⟨.none, []⟩, 0, 0, 0, 0, []⟩] = none := by decide
+
+/-- a context that becomes done *during* `Acquire` (`fired`): failing is then not spurious — but a call that fails after
+    the semaphore granted it the slot must have put the slot back -/
+example :
+    checkRun 1 1 [false] [.acq 0] [⟨⟨.err, []⟩, 0, 0, 0, 0, [0]⟩] = none ∧
+    checkRun 1 1 [false] [.acq 0] [⟨⟨.err, []⟩, 1, 0, 0, 0, [0]⟩] = some "held-ne-owners" ∧
+    checkRun 1 1 [false] [.acq 0] [⟨⟨.ok, []⟩, 1, 0, 0, 0, [0]⟩] = none ∧
+    checkRun 1 1 [false, false] [.acq 0, .acq 1, .rel 0]
+      [⟨⟨.ok, []⟩, 1, 0, 0, 0, []⟩, ⟨⟨.blocked, []⟩, 1, 0, 1, 0, []⟩, ⟨⟨.none, [(1, .err)]⟩, 1, 0, 0, 0, [1]⟩]
+      = some "held-ne-owners" := by decide
 
 /-- the director model reproduces the blocking behaviour: third search blocks, is woken by a release -/
 example : ((dRun (dInit 2 0 [false, false, false]) [.acq 0, .acq 1, .acq 2, .rel 0]).2.map
